@@ -29,6 +29,12 @@ def run_one(job, helper):
                 mod = ast.parse(defgen.module_src(f))
                 ir = P.function(mod.body[0].body[0] if f["method"] else mod.body[0])
             out = json.dumps(irutil.ir_to_json(ir), sort_keys=False, default=repr)
+        elif job["kind"] == "parse_live":
+            # an in-memory definition (the inspect.signature path): the module is written out and imported once per
+            # process, the live object is handed to the parser every time the job is asked for
+            fn = _live(job)
+            ir = P.function(fn) if job["form"] == "function" else P.class_(fn)
+            out = json.dumps(irutil.ir_to_json(ir), sort_keys=False, default=repr)
         elif job["kind"] == "emit":
             ir = helper.py_ir(job["ir"])
             out = kinds.to_source(job["to"], kinds.emit(job["to"], ir, job.get("opts", {})))
@@ -43,6 +49,32 @@ def run_one(job, helper):
     # (an ast node left in a description by a recorded defect prints with its memory address: not a difference)
     out = re.sub(r" object at 0x[0-9a-fA-F]+>", " object>", out)
     return hashlib.sha1(out.encode()).hexdigest()[:16] + " " + out.replace("\n", "\\n")[:400]
+
+
+_LIVE = {}
+
+
+def _live(job):
+    import importlib
+    import os
+    import tempfile
+
+    if job["id"] not in _LIVE:
+        d = tempfile.mkdtemp(prefix="c12live")
+        name = "c12live_%s_%d" % (job["id"], os.getpid())
+        with open(os.path.join(d, name + ".py"), "w") as fh:
+            fh.write(job["src"])
+        sys.path.insert(0, d)
+        try:
+            importlib.invalidate_caches()
+            _LIVE[job["id"]] = getattr(importlib.import_module(name), job["name"])
+        finally:
+            sys.path.remove(d)
+        import atexit
+        import shutil
+
+        atexit.register(shutil.rmtree, d, True)
+    return _LIVE[job["id"]]
 
 
 def main():
